@@ -50,6 +50,7 @@ type scenario struct {
 	Unlimited bool
 	Default   string // name of the answer given at cost 0 ("" = 200ok): models a server that keeps failing
 	Seed      int64  // != 0: the client's jitter source (math/rand) is re-seeded with it at the start of every execution, which then run one at a time
+	LogGate   bool   // the client's log calls are scheduling points (answers to other callers can land between a back-off decision and the wait)
 	Statuses  bool   // the menu is the parsable 200, the plain 503 and one plain answer per HTTP status of the status alphabet (every status is final unless the statement names it)
 	Prompt    bool   // the server answers each request the instant it arrives (requests that differ only by jitter are not merged)
 }
@@ -309,6 +310,23 @@ func (transportTimeout) Timeout() bool        { return true }
 func (transportTimeout) Temporary() bool      { return true }
 func (transportTimeout) Is(target error) bool { return target == context.DeadlineExceeded }
 
+// gatedLog makes the client's log calls scheduling points: the client logs between deciding on a back-off and starting
+// to wait it out, and what another submission of the same client does in that gap must not shorten the wait.
+type gatedLog struct{ env *gate.Env }
+
+func (g gatedLog) Printf(f string, a ...interface{}) {
+	g.env.Ask("client logs: "+strings.SplitN(fmt.Sprintf(f, a...), ",", 2)[0], "log", nil)
+}
+
+func logPending(pend []*gate.Pending) bool {
+	for _, p := range pend {
+		if p.Kind == "log" {
+			return true
+		}
+	}
+	return false
+}
+
 type nolog struct{}
 
 func (nolog) Printf(string, ...interface{}) {}
@@ -336,9 +354,17 @@ func runScenario(sc scenario) func(t *testing.T, x *gate.Exec) {
 		var lc *client.LogClient
 		var err error
 		if sc.API == "logclient" {
-			lc, err = client.New("http://log.example/log", hc, jsonclient.Options{Logger: nolog{}})
+			var lg jsonclient.Logger = nolog{}
+			if sc.LogGate {
+				lg = gatedLog{env}
+			}
+			lc, err = client.New("http://log.example/log", hc, jsonclient.Options{Logger: lg})
 		} else {
-			jc, err = jsonclient.New("http://log.example/log", hc, jsonclient.Options{Logger: nolog{}})
+			var lg jsonclient.Logger = nolog{}
+			if sc.LogGate {
+				lg = gatedLog{env}
+			}
+			jc, err = jsonclient.New("http://log.example/log", hc, jsonclient.Options{Logger: lg})
 		}
 		if err != nil {
 			x.Violation("harness", "client construction: %v", err)
@@ -429,6 +455,14 @@ func runScenario(sc scenario) func(t *testing.T, x *gate.Exec) {
 			}
 			var acts []act
 			for pi, p := range pend {
+				if p.Kind == "log" {
+					cost := 0
+					if pi > 0 {
+						cost = 1
+					}
+					acts = append(acts, act{gate.Alt{Label: p.Key + " <- done", Cost: cost}, func() { env.Answer(p, nil) }})
+					continue
+				}
 				info := p.Info.(rtInfo)
 				c := byName(info.caller)
 				m := menu
@@ -472,6 +506,8 @@ func runScenario(sc scenario) func(t *testing.T, x *gate.Exec) {
 						stuck = true
 					}
 				}})
+			} else if logPending(pend) {
+				// a log call takes no time: while one is held, only answers and its release are on offer
 			} else if sc.Callers > 1 || strings.HasPrefix(sc.Ctx[0], "deadline") {
 				for _, d := range []time.Duration{time.Second, 3 * time.Second} {
 					acts = append(acts, act{gate.Alt{Label: fmt.Sprintf("server-slow %v", d), Cost: 1}, func() { time.Sleep(d) }})
@@ -623,7 +659,10 @@ func oracle(sc scenario, x *gate.Exec, rec *recorder, callers []*caller) {
 					if a.status == 408 && gap >= jitter {
 						pendingUntil := time.Duration(-1)
 						for _, o := range evs {
-							if o.kind == "ans" && o.idx < lastAns.idx && retryable(o.ans) && o.ans.status != 408 && !o.ans.redir {
+							// (when the client's log calls are scheduling points, this caller may have been held at its "retrying
+							// immediately" log line while another submission's failure armed the back-off: any failure answered
+							// before this retry went out may be what it waited for)
+							if o.kind == "ans" && (o.idx < lastAns.idx || (sc.LogGate && o.idx < e.idx)) && retryable(o.ans) && o.ans.status != 408 && !o.ans.redir {
 								u := o.t + cap128
 								if o.askAt > u {
 									u = o.askAt
@@ -761,6 +800,7 @@ func TestCheck(t *testing.T) {
 		scenario{Name: "2 callers sharing a client, prompt server keeps answering 503", API: "json", Callers: 2, Ctx: []string{"none", "none"}, MaxBad: kb, Bound: bb - 1, Default: "503", Prompt: true, Seed: 1},
 		scenario{Name: "2 callers sharing a client, prompt server keeps answering 503, other jitter", API: "json", Callers: 2, Ctx: []string{"none", "none"}, MaxBad: kb, Bound: bb - 1, Default: "503", Prompt: true, Seed: 7},
 		scenario{Name: "3 callers sharing a LogClient, prompt server, network keeps failing", API: "logclient", Callers: 3, Ctx: []string{"none", "none", "none"}, MaxBad: kb - 2, Bound: bb - 1, Default: "neterr", Prompt: true, Seed: 3},
+		scenario{Name: "2 callers sharing a client, json, log calls are scheduling points", API: "json", Callers: 2, Ctx: []string{"none", "deadline10s"}, MaxBad: 2, Bound: 2, LogGate: true},
 		scenario{Name: "1 caller, json, every status code", API: "json", Callers: 1, Ctx: []string{"deadline10s"}, MaxBad: 3, Bound: 2, Statuses: true},
 		scenario{Name: "1 caller, LogClient.AddChain, every status code", API: "logclient", Callers: 1, Ctx: []string{"cancel"}, MaxBad: 2, Bound: 1, Statuses: true},
 		scenario{Name: "1 caller, json, server keeps answering 503 with Retry-After: 0", API: "json", Callers: 1, Ctx: []string{"cancel"}, MaxBad: kb, Bound: bb, Default: "503ra0"},
